@@ -139,7 +139,8 @@ class Custom(WorldStream):
                         "cfg_ia": rng.choice(["_ignore", "_ignore", "_other_ignore"]),
                         "sm_arg": rng.choice([None, None, None, "", "_serialize", "_custom_ser", "_nosuch"]),
                         "ia_arg": rng.choice([None, None, None, "", "_ignore", "_other_ignore"]),
-                        "ign_arg": rng.choice([None, None, []] + [rng.sample(names, rng.randint(1, min(4, len(names))))] * 2)}
+                        "ign_arg": rng.choice([None, None, []] + [rng.sample(names, rng.randint(1, min(4, len(names))))] * 2),
+                        "copies": rng.choice([0, 0, 1, 2])}
                 cases.append(case)
         return cases
 
@@ -163,6 +164,9 @@ class Custom(WorldStream):
         view = w.model_view(obj)
         cfg = self.C.Config(serialize_method=case["cfg_sm"], ignore_attribute=case["cfg_ia"],
                             serialize_handlers=self.handler_table(w, case["handlers"]))
+        # a configuration derived with Config.copy() must customise the dump in the same way
+        for _ in range(case.get("copies", 0)):
+            cfg = cfg.copy()
         ign = None if case["ign_arg"] is None else list(case["ign_arg"])
         d = outcome(lambda: self.JC.dump(obj, case["sm_arg"], case["ia_arg"], ign, cfg))
         if d[0] == "ok":
